@@ -42,7 +42,9 @@ def samples(draw, min_taxa=4, max_taxa=8, min_trees=1, max_trees=8, weights=True
             t["w"] = draw(st.one_of(st.none(), st.integers(1, 8).map(lambda x: x / 2.0)))
     return {"n": n, "base": base, "trees": trees, "rooted": draw(st.sampled_from([True, False, None])),
             "ultrametric": ultrametric, "shared_lens": draw(st.booleans()),
-            "lenmul": draw(st.sampled_from([1.0, 1.0, 0.1, 0.3, 1.0 / 3.0]))}
+            "lenmul": draw(st.sampled_from([1.0, 1.0, 0.1, 0.3, 1.0 / 3.0])),
+            # a common offset on every edge length: values that differ only in their last digits (dated trees in years)
+            "lenoff": draw(st.sampled_from([0.0, 0.0, 0.0, 0.0, 4096.0, 1500000.0]))}
 
 
 def nni(rt, edge, child, sib):
@@ -94,7 +96,7 @@ def realise(sample):
             lens = sample["trees"][0]["lens"] if sample.get("shared_lens") else t["lens"]
             mul = sample.get("lenmul", 1.0)
             for k, i in enumerate(rt.preorder()):
-                rt.length[i] = None if i == rt.root else (lens[k % len(lens)] / 8.0) * mul
+                rt.length[i] = None if i == rt.root else (lens[k % len(lens)] / 8.0) * mul + sample.get("lenoff", 0.0)
         rt.weight = t["w"]
         out.append(rt)
     return out
